@@ -361,7 +361,16 @@ class V:
     (same Python object here as well) while the PDU holds it"""
 
     def copy(self):
-        return _copy.deepcopy(self)      # keeps the identity relation between L and the PDU's list
+        # lists are copied one level deep (their items are never edited in place), the identity relation between
+        # L and the PDU's list is kept
+        w, memo = V(), {}
+        for k, x in self.__dict__.items():
+            if isinstance(x, list):
+                if id(x) not in memo:
+                    memo[id(x)] = list(x)
+                x = memo[id(x)]
+            w.__dict__[k] = x
+        return w
 
     @property
     def alias(self):
@@ -522,6 +531,14 @@ def true_dlen(v):
     if b is None or v.flags[2] not in (0, 1):
         return None
     return 1 + len(b) + (2 if v.flags[2] == 1 else 0)
+
+
+def plen(v):
+    """packet length the standard prescribes for the current values (None: not a valid parameter set)"""
+    t = true_dlen(v)
+    if t is None or t > 65535 or not hdr_ok(v):
+        return None
+    return 4 + 2 * v.ids[1] + v.ids[5] + t
 
 
 def octets(v):
@@ -740,12 +757,12 @@ def oracle(case, ires, sres):
                             % (who, hist, e[:60], exp[:60]))
                 continue
             if o[0] == 121:
-                exp = octets(v)
-                if v.synced and exp is not None:
+                n = plen(v) if v.synced else None
+                if n is not None:
                     hl = 4 + 2 * v.ids[1] + v.ids[5]
-                    if e != [len(exp), len(exp) - hl, hl + 1]:
+                    if e != [n, n - hl, hl + 1]:
                         return ("C11/%s.history/length" % name, "%s after %s reports packet_len, data field length, header_len %s; "
-                                "its current values pack to %d octets (header %d)" % (who, hist, e, len(exp), hl))
+                                "its current values pack to %d octets (header %d)" % (who, hist, e, n, hl))
                 continue
             refuse, w = v_step(v, o)
             refused = e[0] == 1
@@ -766,6 +783,9 @@ def oracle(case, ires, sres):
         if idsr != v.ids or flagsr != v.flags or hd[0] != v.ptype or hd[1] != v.meta:
             return ("C11/%s.history/header-values" % name, "%s after %s exposes header %s %s %s, assigned were %s %s type %d meta %d"
                     % (who, hist, hd, idsr, flagsr, v.ids, v.flags, v.ptype, v.meta))
+        if kind == "fin" and v.resps is None and gotk[:2] == exp_fields(v)[:2] and gotk[2:] == [[0]]:
+            return ("C11/FinishedPdu.__init__/caller-params-modified", "%s: the caller's FinishedParams had file_store_responses=None, "
+                    "after %s it is [] (history %s)" % (who, "the constructor" if not ops else "construction and the history", hist))
         if gotk != exp_fields(v):
             return ("C11/%s.history/values" % name, "%s (path %d) after %s exposes %s, the values assigned are %s"
                     % (who, path, hist, str(gotk)[:300], str(exp_fields(v))[:300]))
@@ -777,12 +797,13 @@ def oracle(case, ires, sres):
                     % (who, clist[:40], exp_caller_list(v)[:40], hist))
         if p1 != p2:
             return ("C11/%s.pack/not-repeatable" % name, "%s: two packs differ after %s" % (who, hist))
-        exp = octets(v)
-        if v.synced and exp is not None:
+        n = plen(v) if v.synced else None
+        if n is not None:
             hl = 4 + 2 * v.ids[1] + v.ids[5]
-            if lens3 != [len(exp), len(exp) - hl, hl + 1] or hd[2] != len(exp) - hl or lens != [hl, len(exp)]:
+            if lens3 != [n, n - hl, hl + 1] or hd[2] != n - hl or lens != [hl, n]:
                 return ("C11/%s.history/length" % name, "%s (path %d) after %s reports packet_len, data field length, header_len %s; "
-                        "its current values pack to %d octets (header %d)" % (who, path, hist, lens3, len(exp), hl))
+                        "its current values pack to %d octets (header %d)" % (who, path, hist, lens3, n, hl))
+            exp = octets(v)
             if p1 != [0] + exp:
                 return ("C11/%s.history/fresh" % name, "%s (path %d) after %s packs %s; a PDU with these values is %s"
                         % (who, path, hist, p1[:60], exp[:60]))
@@ -901,6 +922,10 @@ def gen_ops(kind, rng, large, n=None):
     for _ in range(n):
         if ops and rng.random() < 0.08:
             ops.append(list(ops[-1]))                       # the same assignment twice
+        elif ops and kind in ("eof", "fin") and ops[-1][0] == 1 and rng.random() < 0.5:
+            # an entity ID that compares equal (EntityIdTlv.__eq__ is numerical) but has another length
+            val = ops[-1][1:]
+            ops.append([1] + ([0] * rng.choice([1, 3]) + val if rng.random() < 0.6 or not val or val[0] else val[1:]))
         elif rng.random() < p_spec:
             ops.append(gen_specific(kind, rng, large))
         else:
